@@ -660,7 +660,7 @@ func enumCases(yield func(Case)) {
 
 func TestChange(t *testing.T) {
 	pbt.Run(t, pbt.Sub[Case]{
-		Name: "change", Quick: 300000, Thorough: 4000000,
+		Name: "change", Quick: 300000, Thorough: 16000000,
 		Gen:   genCase,
 		Check: check,
 		EnumDesc: "one unsigned P2PKH input; output count in {0,1,2,251,252,253,254} x destination in {address, P2PKH script, scripts of 1/24/76/253/400 bytes, existing output first/last/invalid} x 9 standard rates (paired with a different data rate; every other one adds an OP_FALSE OP_RETURN output) x input total in {out-1, out, F-1, F, F+1, F+dust, F+dust+1, F+dust+2, ample, huge}, F = reference fee including the change output",
